@@ -1,0 +1,40 @@
+//go:build verif
+
+// Contracts for the verifier in /verif (see /verif/DESIGN.md). Compiled only with the build tag "verif"; adds
+// declarations and comments, changes nothing in the package.
+package server4
+
+import "github.com/insomniacslk/dhcp/dhcpv4"
+
+// The environment of the server: its logger, its connection and the handler goroutines do not write the memory the
+// serving loop works on (the Server object, the per-datagram buffer before it is decoded): assumed (A5).
+//@ contract Logger.Printf
+//@   trusted
+
+//@ contract Logger.PrintMessage
+//@   trusted
+
+//@ contract net.PacketConn.LocalAddr
+//@   trusted
+
+//@ contract net.PacketConn.Close
+//@   trusted
+
+// Serve: one iteration per datagram. spawned() counts the go statements executed (ghost).
+//   - the loop is left only through the read error (the only return), never because of a malformed datagram;
+//   - a datagram that does not decode, or whose peer is not a UDP address, starts no handler;
+//   - a datagram that decodes starts exactly one handler, with the freshly decoded message of this very datagram
+//     (decoded from a buffer allocated in this iteration, so independent of every other datagram's message) and with
+//     the sender as peer, the limited broadcast address standing in for a sender without IP address.
+//@ contract (*Server).Serve
+//@   requires s != nil && s.conn != nil && s.logger != nil && s.Handler != nil
+//@   ensures[returns-on-read-error] result != nil
+//@   after `rbuf := make([]byte, 4096)` let S0 = spawned()
+//@   after `s.logger.Printf("Error parsing DHCPv4 request: %v", err)` assert[undecodable-not-dispatched] spawned() == S0 && !dhcpv4.SpecAcceptV4(string(rbuf[:n]))
+//@   after `s.logger.Printf("Not a UDP connection? Peer is %s", peer)` assert[non-udp-not-dispatched] spawned() == S0
+//@   after `go s.Handler(s.conn, upeer, m)` assert[dispatched-once] spawned() == S0 + 1 && dhcpv4.SpecAcceptV4(string(rbuf[:n])) && m != nil && fresh(m) && fresh(rbuf)
+//@   after `go s.Handler(s.conn, upeer, m)` assert[message-of-this-datagram] string(m.TransactionID[:]) == string(rbuf[:n])[4:8] && int(m.OpCode) == int(rbuf[0])
+//@   after `go s.Handler(s.conn, upeer, m)` assert[peer-bcast] peer.(*net.UDPAddr).IP == nil ==> fresh(upeer) && upeer.Port == peer.(*net.UDPAddr).Port
+//@   after `go s.Handler(s.conn, upeer, m)` assert[peer] upeer != nil && typeIs(peer, *net.UDPAddr) && upeer.Port == peer.(*net.UDPAddr).Port
+
+var _ = dhcpv4.SpecAcceptV4
